@@ -290,7 +290,7 @@ void BasicPLApproximator<FuncCon>::InitNonPeriodic() {
   // according to lbx() / ubx()
   laPrm_.fUsePeriod = false;
   auto bp_default = GetDefaultBreakpoints();
-  std::set<float> bpl_set(bp_default.begin(), bp_default.end());
+  std::set<double> bpl_set(bp_default.begin(), bp_default.end());
   auto it = bpl_set.insert(lbx()).first;
   bpl_set.erase(bpl_set.begin(), it);      // remove points before lbx()
   it = bpl_set.insert(ubx()).first;
@@ -475,13 +475,13 @@ double BasicPLApproximator<FuncCon>::maxErrorRelAbove1(
   }
   if (f0<1.0 && f1>1.0) {
     auto x_preim_1 = inverse_with_check(1.0);
-    MP_ASSERT_ALWAYS(x0<x_preim_1 && x1>x_preim_1,
+    MP_ASSERT_ALWAYS(x0<=x_preim_1 && x1>=x_preim_1,
                      "PLApprox maxErrRel(): preim(1.0) outside");
     points.push_back( { 1.0, y0 + (x_preim_1-x0) * slope } );
   }
   if (f0<-1.0 && f1>-1.0) {
     auto x_preim_1 = inverse_with_check(-1.0);
-    MP_ASSERT_ALWAYS(x0<x_preim_1 && x1>x_preim_1,
+    MP_ASSERT_ALWAYS(x0<=x_preim_1 && x1>=x_preim_1,
                      "PLApprox maxErrRel(): preim(-1.0) outside");
     points.push_back( { -1.0, y0 + (x_preim_1-x0) * slope } );
   }
